@@ -86,8 +86,15 @@ auto_decode(void *coder_ptr, const lzma_allocator *allocator,
 				coder->next.coder, allocator,
 				in, in_pos, in_size,
 				out, out_pos, out_size, action);
+		// The .xz and .lz decoders handle LZMA_CONCATENATED themselves.
+		// In particular, the .lz decoder returns LZMA_STREAM_END
+		// without consuming all input when the last member is
+		// followed by trailing data, which is valid in .lz files.
+		// Only the LZMA_Alone decoder (the only one that doesn't
+		// set get_check) needs the trailing garbage check below.
 		if (ret != LZMA_STREAM_END
-				|| (coder->flags & LZMA_CONCATENATED) == 0)
+				|| (coder->flags & LZMA_CONCATENATED) == 0
+				|| coder->next.get_check != NULL)
 			return ret;
 
 		coder->sequence = SEQ_FINISH;
